@@ -54,4 +54,59 @@ def intInstr : Instr → Bool
 def intFunc (f : Func) : Bool :=
   f.params.all (fun p => isIntTy p.2) && isIntTy f.ret && f.code.all intInstr
 
+/-! ## The unsigned counterpart -/
+
+instance (x : Int) : Decidable (inU32 x) := by unfold inU32; infer_instance
+
+def valU32 : Val → Bool
+  | .int x => decide (inU32 x)
+  | _ => true
+
+/-- Every argument and every value reference of the frame holds an unsigned 32-bit number (if it holds an integer). -/
+def frameU32 (fr : Frame) : Bool := fr.args.all valU32 && fr.regs.all (fun p => valU32 p.2)
+
+/-- `VM.run` that additionally stops as soon as a frame leaves the unsigned 32-bit domain. -/
+def runRU (P : Program) : Nat → Func → Nat → Frame → Globals → Res
+  | 0, _, _, _, _ => .fail .timeout
+  | fuel + 1, fn, pc, fr, g =>
+    let callf := fun name args g' =>
+      match P.find name with
+      | some callee => run P fuel callee 0 { args := args } g'
+      | none => .fail (.internal "KeyError-function")
+    match stepI callf fn.code pc fr g with
+    | .next pc' fr' g' => if frameU32 fr' then runRU P fuel fn pc' fr' g' else .fail (.unsupported "outside-u32")
+    | .ret v g' as => .done v g' as
+    | .fail e => .fail e
+
+def isUIntTy : ITy → Bool
+  | .sc .uint => true
+  | _ => false
+
+/-- An operand of unsigned code: a reference or a non-negative integer constant. -/
+def uOpd : Opd → Bool
+  | .ref _ => true
+  | .cInt c => decide (0 ≤ c)
+  | .cFlt _ => false
+
+def refOpd : Opd → Bool
+  | .ref _ => true
+  | _ => false
+
+/-- Straight-line unsigned-integer code: as `intInstr`, with type `uint`; the first operand of a comparison is a
+reference (the generator selects the signedness of a comparison from the type of its first operand, and the IR model
+types every inlined integer constant as a signed `int`). -/
+def uintInstr : Instr → Bool
+  | .label _ => true
+  | .load _ ty .arg (.index _) => isUIntTy ty
+  | .store .arg (.index _) src => uOpd src
+  | .bin _ (.s op) ty a b =>
+    (((op == .add || op == .sub || op == .mul || op == .div) && uOpd a) ||
+      ((op == .eq || op == .lt || op == .gt) && refOpd a)) && isUIntTy ty && uOpd b
+  | .ret (some v) => uOpd v
+  | _ => false
+
+/-- A function with `uint` parameters and result whose body is unsigned-integer code. -/
+def uintFunc (f : Func) : Bool :=
+  f.params.all (fun p => isUIntTy p.2) && isUIntTy f.ret && f.code.all uintInstr
+
 end Nsl.Wasm
